@@ -5,6 +5,7 @@ import PgsVerif.Generated.Code_context_ServerStream
 import PgsVerif.Generated.Code_go_joinChild
 import PgsVerif.Generated.Code_go_joinNames
 import PgsVerif.Generated.Code_go_replaceProtected
+import PgsVerif.Generated.Code_go_unique
 /-!
 # Tie (translated code): the name-joining helpers of lang/go/name.go
 
@@ -12,6 +13,10 @@ import PgsVerif.Generated.Code_go_replaceProtected
 from the current source.  The model's `joinChild` (a nested type's name: glued on when it starts
 with a lower-case letter, joined by `_` otherwise), the `_`-joined enum value names and the service
 names are those translations.
+
+The function literal `unique` inside `uniqueNames` - the loop that appends underscores until the name
+and, for a field, its getter are free, and the two reservations it then makes - is translated as well
+(`go_unique`); the model's `makeUnique`, on which `C16_unique_names` rests, is that translation.
 -/
 namespace Pgs.GoNames
 open Pgs Pgs.GenCode
@@ -54,5 +59,27 @@ theorem tie_replaceProtected (n : Bytes) :
       | none => n := by
   unfold go_replaceProtected lookupTbl
   cases Generated.protectedNames.find? (·.1 == n) <;> rfl
+
+/-- the underscore loop of `unique`: the model's `bump` is the translated `for` loop, round for round -/
+theorem tie_bump (u : Used) (getter : Bool) : ∀ (f : Nat) (n : Bytes),
+    bump u getter f n =
+      whileFuel (fun n => (u.get n || (getter && u.get (([71, 101, 116] : Bytes) ++ n)))) (fun n => n ++ ([95] : Bytes)) f n := by
+  intro f
+  induction f with
+  | zero => intro n; rfl
+  | succ f ih =>
+    intro n
+    simp only [bump, whileFuel, getPrefix, underscore]
+    by_cases h : (u.get n || (getter && u.get (([71, 101, 116] : Bytes) ++ n))) = true
+    · simp only [h, if_true]; exact ih _
+    · simp only [h]; rfl
+
+/-- **`unique`** (the closure of `uniqueNames`): the name found and the two reservations made -/
+theorem tie_unique (u : Used) (n : Bytes) (getter : Bool) :
+    makeUnique u n getter = go_unique u (u.length + 2) n getter := by
+  simp only [makeUnique, go_unique, tie_bump, getPrefix]
+
+/-- non-vacuity: `foo` after `get_foo` took `GetFoo`... the getter of `Foo` is taken, so `Foo_` -/
+example : (go_unique [([71, 101, 116, 70, 111, 111], true)] 3 [70, 111, 111] true).1 = [70, 111, 111, 95] := by decide
 
 end Pgs.GoNames
